@@ -41,29 +41,50 @@ ASSUME DCap >= Cap /\ Threshold >= ChunkSize
 Objs == {0, Small, 2 * Block, Mid, Cap, Cap + 1, Cap + 3 * Block}
 Fam(f) ==
   CASE f = "base"   -> [shape : {"plain", "presigned"}, obj : Objs, enc : {"none"}, dec : {0}, mr : {1},
-                        allredir : {FALSE}, redirfaults : {FALSE}, pace : {"flat"}, hedges : {4}]
+                        allredir : {FALSE}, redirfaults : {FALSE}, pace : {"flat"}, hedges : {4}, dcapcfg : {"explicit"}, consumer : {"none"}]
     [] f = "redir"  -> [shape : {"plain", "presigned"}, obj : {Small, Mid}, enc : {"none"}, dec : {0}, mr : {0, 1, 2},
-                        allredir : {TRUE}, redirfaults : {FALSE}, pace : {"flat"}, hedges : {4}]
+                        allredir : {TRUE}, redirfaults : {FALSE}, pace : {"flat"}, hedges : {4}, dcapcfg : {"explicit"}, consumer : {"none"}]
     [] f = "redirx" -> [shape : {"plain", "presigned"}, obj : {Small, Mid}, enc : {"none"}, dec : {0}, mr : {0, 1, 2},
-                        allredir : {FALSE}, redirfaults : {TRUE}, pace : {"flat"}, hedges : {4}]
+                        allredir : {FALSE}, redirfaults : {TRUE}, pace : {"flat"}, hedges : {4}, dcapcfg : {"explicit"}, consumer : {"none"}]
     [] f = "enc"    -> [shape : {"plain", "presigned"}, obj : {Small, Mid}, enc : {"zstd", "zstdstream", "gzip"},
                         dec : {2 * Block, DCap, DCap + 1, 64 * Block, -1}, mr : {1},
-                        allredir : {FALSE}, redirfaults : {FALSE}, pace : {"flat"}, hedges : {4}]
+                        allredir : {FALSE}, redirfaults : {FALSE}, pace : {"flat"}, hedges : {4}, dcapcfg : {"explicit"}, consumer : {"none"}]
     [] f = "encq"   -> [shape : {"plain"}, obj : {Small}, enc : {"zstd", "zstdstream", "gzip"},
                         dec : {DCap, DCap + 1, 64 * Block, -1}, mr : {1},
-                        allredir : {FALSE}, redirfaults : {FALSE}, pace : {"flat"}, hedges : {4}]
+                        allredir : {FALSE}, redirfaults : {FALSE}, pace : {"flat"}, hedges : {4}, dcapcfg : {"explicit"}, consumer : {"none"}]
                        \cup [shape : {"plain", "presigned"}, obj : {Mid}, enc : {"zstd"}, dec : {DCap, 64 * Block},
-                             mr : {1}, allredir : {FALSE}, redirfaults : {FALSE}, pace : {"flat"}, hedges : {4}]
+                             mr : {1}, allredir : {FALSE}, redirfaults : {FALSE}, pace : {"flat"}, hedges : {4}, dcapcfg : {"explicit"}, consumer : {"none"}]
     [] f = "redirq" -> [shape : {"plain", "presigned"}, obj : {Small}, enc : {"none"}, dec : {0}, mr : {0, 1, 2},
-                        allredir : {FALSE}, redirfaults : {TRUE}, pace : {"flat"}, hedges : {4}]
+                        allredir : {FALSE}, redirfaults : {TRUE}, pace : {"flat"}, hedges : {4}, dcapcfg : {"explicit"}, consumer : {"none"}]
                        \cup [shape : {"plain"}, obj : {Mid}, enc : {"none"}, dec : {0}, mr : {1},
-                             allredir : {FALSE}, redirfaults : {TRUE}, pace : {"flat"}, hedges : {4}]
+                             allredir : {FALSE}, redirfaults : {TRUE}, pace : {"flat"}, hedges : {4}, dcapcfg : {"explicit"}, consumer : {"none"}]
     [] f = "hedgeq" -> [shape : {"plain"}, obj : {Cap}, enc : {"none"}, dec : {0}, mr : {1},
-                        allredir : {FALSE}, redirfaults : {FALSE}, pace : {"h1", "h2"}, hedges : {-1, 0, 1}]
+                        allredir : {FALSE}, redirfaults : {FALSE}, pace : {"h1", "h2"}, hedges : {-1, 0, 1}, dcapcfg : {"explicit"}, consumer : {"none"}]
                        \cup [shape : {"plain"}, obj : {Mid}, enc : {"none"}, dec : {0}, mr : {1},
-                             allredir : {TRUE}, redirfaults : {FALSE}, pace : {"h1"}, hedges : {4}]
+                             allredir : {TRUE}, redirfaults : {FALSE}, pace : {"h1"}, hedges : {4}, dcapcfg : {"explicit"}, consumer : {"none"}]
     [] f = "hedge"  -> [shape : {"plain"}, obj : {Mid, Cap}, enc : {"none"}, dec : {0}, mr : {1},
-                        allredir : {FALSE, TRUE}, redirfaults : {FALSE}, pace : {"h1", "h2"}, hedges : {-1, 0, 1, 4}]
+                        allredir : {FALSE, TRUE}, redirfaults : {FALSE}, pace : {"h1", "h2"}, hedges : {-1, 0, 1, 4},
+                        dcapcfg : {"explicit"}, consumer : {"none"}]
+    \* max_decompressed_bytes left at None: the documented effective cap is 16 * max_fetch_bytes
+    [] f = "decdefault" -> [shape : {"plain"}, obj : {Small, Mid}, enc : {"zstd", "zstdstream", "gzip"},
+                            dec : {16 * Cap, 16 * Cap + 1, 256 * Block}, mr : {1}, allredir : {FALSE},
+                            redirfaults : {FALSE}, pace : {"flat"}, hedges : {4}, dcapcfg : {"default"},
+                            consumer : {"none"}]
+    [] f = "decdefaultq" -> [shape : {"plain"}, obj : {Small}, enc : {"zstd", "gzip"},
+                             dec : {16 * Cap, 16 * Cap + 1, 256 * Block}, mr : {1}, allredir : {FALSE},
+                             redirfaults : {FALSE}, pace : {"flat"}, hedges : {4}, dcapcfg : {"default"},
+                             consumer : {"none"}]
+    \* the fetch as issued by resolve_external_location (vgi_rpc/external.py): the fetched bytes are an IPC stream the
+    \* consumer accepts or refuses (checksum, nested pointer, no / several data batches, schema)
+    [] f = "resolve" -> [shape : {"plain", "presigned"}, obj : {Small, Mid}, enc : {"none", "zstd"}, dec : {2 * Block},
+                         mr : {1}, allredir : {FALSE}, redirfaults : {FALSE}, pace : {"flat"}, hedges : {4},
+                         dcapcfg : {"explicit"}, consumer : {"accept", "sha", "loop", "nodata", "multi", "schema"}]
+    [] f = "resolveq" -> [shape : {"plain", "presigned"}, obj : {Small}, enc : {"none"}, dec : {2 * Block},
+                          mr : {1}, allredir : {FALSE}, redirfaults : {FALSE}, pace : {"flat"}, hedges : {4},
+                          dcapcfg : {"explicit"}, consumer : {"accept", "sha", "loop", "nodata", "multi", "schema"}]
+                         \cup [shape : {"plain"}, obj : {Mid}, enc : {"zstd"}, dec : {2 * Block}, mr : {1},
+                               allredir : {FALSE}, redirfaults : {FALSE}, pace : {"flat"}, hedges : {4},
+                               dcapcfg : {"explicit"}, consumer : {"accept", "sha", "schema"}]
 Envs == UNION {Fam(f) : f \in Families}
 \* dec = -1: the stored bytes are not a valid frame of the named codec;  hedges: -1 hedging off, 0 unlimited
 
@@ -308,7 +329,8 @@ SlowThrough == /\ pc \in {"slow", "slowcut"} /\ cur = NoCur /\ (failed \/ todo =
                /\ UNCHANGED <<env, fix, cur, info, st, wrong, faults, rchain, okc, lateOk, hedged, todo, log>>
 
 \* ---- decode ----
-DecodeFails == env.dec = -1 \/ env.dec > DCap
+DCapOf(e) == IF e.dcapcfg = "default" THEN 16 * Cap ELSE DCap
+DecodeFails == env.dec = -1 \/ env.dec > DCapOf(env)
 Decode == /\ pc = "decode"
           /\ IF env.enc = "none" THEN UNCHANGED <<failed, wrong>>
              ELSE IF ~wrong THEN failed' = DecodeFails /\ UNCHANGED wrong
@@ -316,8 +338,14 @@ Decode == /\ pc = "decode"
              \* codec skips they even decode to the object
              ELSE \/ (failed' \in BOOLEAN /\ UNCHANGED wrong)
                   \/ (wrong' = FALSE /\ failed' = DecodeFails)
-          /\ pc' = "finish"
+          /\ pc' = IF env.consumer = "none" THEN "finish" ELSE "consume"
           /\ UNCHANGED <<env, fix, cur, info, st, faults, rchain, okc, lateOk, hedged, todo, log>>
+\* ---- the consumer of resolve_external_location: only a stream that passes every check is handed on ----
+Consume == /\ pc = "consume"
+           /\ IF failed \/ wrong THEN UNCHANGED <<failed, log>>
+              ELSE /\ Ev([e |-> "c", v |-> env.consumer]) /\ failed' = (env.consumer # "accept")
+           /\ pc' = "finish"
+           /\ UNCHANGED <<env, fix, cur, info, st, wrong, faults, rchain, okc, lateOk, hedged, todo>>
 \* assembled bytes that are not the object almost surely do not decode; either way the result is not the object
 OutLen == IF env.enc = "none" THEN (IF info.cl # -1 /\ Parallel THEN info.cl ELSE env.obj) ELSE env.dec
 Finish == /\ pc = "finish"
@@ -330,7 +358,7 @@ Finish == /\ pc = "finish"
 \* a finished fetch stutters, so that TLC's deadlock check proves every other state has a successor
 Terminated == pc = "done" /\ UNCHANGED vars
 Next == \/ Terminated \/ Hop \/ NonHttp \/ ChainFailed \/ Decide \/ GetDone \/ StartChunk \/ ChunkDone \/ ChunksThrough
-        \/ HedgesThrough \/ SlowStep \/ SlowThrough \/ Decode \/ Finish
+        \/ HedgesThrough \/ SlowStep \/ SlowThrough \/ Decode \/ Consume \/ Finish
         \/ \E r \in Redirs : Redirect(r)
         \/ \E a \in HeadAns \cup ProbeAns : ProbeAnswer(a)
         \/ \E a \in GetAns : GetAnswer(a)
@@ -360,7 +388,7 @@ EncodedBounded(e, lg) ==
   /\ \A i \in 1..Len(lg) : (lg[i].e \in {"a", "cut"} /\ lg[i].ch.k = "h") => lg[i].n <= ChunkSize + 1
 EndOf(lg) == lg[Len(lg)]
 Ended(lg) == Len(lg) > 0 /\ EndOf(lg).e = "end"
-DecodedBounded(e, lg) == Ended(lg) => (EndOf(lg).len <= DCap /\ EndOf(lg).peak <= DCap + 2 * Cap + 4 * Block)
+DecodedBounded(e, lg) == Ended(lg) => (EndOf(lg).len <= DCapOf(e) /\ EndOf(lg).peak <= DCapOf(e) + 2 * Cap + 4 * Block)
 ResultIsObjectOrFailure(e, lg) == Ended(lg) => EndOf(lg).out \in {"ok", "fail"}
 NoSecretLeak(e, lg) == Ended(lg) => EndOf(lg).leaks = <<>>
 
